@@ -890,9 +890,10 @@ func (dc *driverContextContextual) transition(driver stateTableDriver, entry tab
 		hasRep                  bool
 		markIndex, currentIndex = entry.AsMorxContextual()
 	)
-	if markIndex != 0xFFFF {
-		lookup := dc.table.Substitutions[markIndex]
-		replacement, hasRep = lookup.Class(gID(buffer.Info[dc.mark].Glyph))
+	// a missing lookup (out of range index or null offset) has no replacement
+	subs := dc.table.Substitutions
+	if markIndex != 0xFFFF && int(markIndex) < len(subs) && subs[markIndex] != nil {
+		replacement, hasRep = subs[markIndex].Class(gID(buffer.Info[dc.mark].Glyph))
 	}
 	if hasRep {
 		buffer.unsafeToBreak(dc.mark, min(buffer.idx+1, len(buffer.Info)))
@@ -905,9 +906,8 @@ func (dc *driverContextContextual) transition(driver stateTableDriver, entry tab
 
 	hasRep = false
 	idx := min(buffer.idx, len(buffer.Info)-1)
-	if currentIndex != 0xFFFF {
-		lookup := dc.table.Substitutions[currentIndex]
-		replacement, hasRep = lookup.Class(gID(buffer.Info[idx].Glyph))
+	if currentIndex != 0xFFFF && int(currentIndex) < len(subs) && subs[currentIndex] != nil {
+		replacement, hasRep = subs[currentIndex].Class(gID(buffer.Info[idx].Glyph))
 	}
 
 	if hasRep {
